@@ -8,7 +8,7 @@ Correspondence components (model coq/YangText.v, coq/PathQuote.v vs impl/t_ytext
   PathQ    lyd_path() of a leaf-list / list instance + lyd_find_path()/lyd_find_xpath() on the result;
            witness() = the C15 round trip fails on the implementation
 Oracles (implementation only, public API):
-  YModRT   module with a description/units/presence string: parse, print YANG, parse, print
+  YModRT   module with a description/units/presence/default string: parse, print YANG, parse, print
   PathQRT  the pathq flags
 """
 import gens
@@ -75,17 +75,16 @@ def is_yang_string(b):
 
 
 def c10_cause(s, single_line, single_quoted):
-    """tag of the known reason why print/lex cannot give back s, or None"""
+    """tag of the known reason why print/lex cannot give back s, or None.
+    Blanks before a newline and (single-line layout) after a newline are no reason any more: since f628c31 the
+    printer escapes such a newline, these strings must round-trip (C10_yang_text_roundtrip_dquoted)."""
     if single_quoted:
+        # ypr_text() indents the continuation lines of a single-quoted text; the blanks become content
         if b"\n" in s:
             return "yang-squote-newline"
         return None
     if b"\r" in s:
         return "yang-cr"
-    if b" \n" in s:
-        return "yang-trailing-ws"
-    if single_line and b"\n " in s:
-        return "yang-singleline-indent"
     return None
 
 
@@ -248,8 +247,8 @@ class PathQ(Comp):
 # oracles (implementation only)
 # ---------------------------------------------------------------------------------------------
 class YModRT:
-    """C10 at the API: module with description / units / presence s -> lys_print_mem(YANG) -> parse in a fresh
-    context -> same string, and the second YANG output equals the first"""
+    """C10 at the API: module with description / units / presence / leaf default s -> lys_print_mem(YANG) -> parse in a
+    fresh context -> same string, and the second YANG output equals the first"""
     name = "ymod"
     driver = "t_ytext"
 
@@ -259,29 +258,36 @@ class YModRT:
     def gen(self, rng, tier, scale=1.0):
         L = []
         for t in fixed_texts(tier):
-            for which in (0, 1, 2):
+            for which in (0, 1, 2, 3):
                 L.append("ymod\t%d\t%s" % (which, hexs(t)))
                 if b"'" not in t:
                     L.append("ymod\t%d\t%s" % (which + 4, hexs(t)))
         for _ in range(self.n(tier, 600, 30000, scale)):
             t = yang_text(rng, rare=0.02)
-            # +4: the module is written with s single-quoted and verbatim (the only way a CR gets in)
+            # +4: the module is written with s single-quoted and verbatim (the only way a CR gets in); a default (3)
+            # written like that is also printed single-quoted
             sq_in = 4 if (b"'" not in t and rng.random() < 0.3) else 0
-            L.append("ymod\t%d\t%s" % (rng.randrange(3) + sq_in, hexs(t)))
+            L.append("ymod\t%d\t%s" % (rng.randrange(4) + sq_in, hexs(t)))
         return L
 
     def judge(self, line, out):
         f = line.split("\t")
         which, s = int(f[1]) & 3, unhex(f[2])
+        # printed single-quoted: only a default that was read single-quoted (LYS_SINGLEQUOTED is kept by the parser)
+        sq_out = which == 3 and bool(int(f[1]) & 4)
         if out == "E":
             return None                       # the context does not accept the module
         if out == "X":
             # the escaped form was not read as s: only the CR + backslash-n lexer case is expected here
-            return ("yang-cr" if b"\r" in s else None, "first parse of the escaped text does not give %r" % s[:80])
+            if b"\r" in s:
+                # by design the lexer normalises CR LF to LF and rejects a lone CR inside a double-quoted argument: the
+                # context never holds s, so there is nothing to round-trip (not a C10 matter)
+                return None
+            return (None, "first parse of the escaped text does not give %r" % s[:80])
         o = out.split(" ")
         if len(o) == 2 and o[0] != "E" and unhex(o[0]) == s and o[1] == "1":
             return None
-        return (c10_cause(s, which != 0, False), "string %r re-parsed from the YANG output as %s, outputs equal: %s" % (
+        return (c10_cause(s, which != 0, sq_out), "string %r re-parsed from the YANG output as %s, outputs equal: %s" % (
             s[:80], "error" if o[0] == "E" else repr(unhex(o[0])[:80]), o[-1]))
 
 
